@@ -299,6 +299,13 @@ def _add(bundle: Bundle, val: BundleAttr) -> BundleAttr:
         msg = f"Invalid Bundle attribute {val} for {bundle}"
         raise TypeError(msg)
 
+    # If the name is being re-used, remove its prior holder from its own type-specific container
+    prior = bundle.namespace.get(val.name, None)
+    if prior is not None and prior is not val:
+        for ctr in (bundle.signals, bundle.bundles):
+            if ctr.get(val.name, None) is prior:
+                ctr.pop(val.name)
+
     # Add it to the bundle namespace, and the type-specific container
     type_ctr[val.name] = val
     bundle.namespace[val.name] = val
